@@ -106,3 +106,12 @@ pub assume_specification<T, U>[ Option::<T>::zip ](a: Option<T>, b: Option<U>) -
 
 pub assume_specification<T>[ Option::<Option<T>>::flatten ](a: Option<Option<T>>) -> (r: Option<T>)
     ensures r == (match a { Some(x) => x, None => None });
+
+// rule R27: `opt.as_mut().map(f)` with the user's `f: FnOnce(&mut T)` (Entry::and_modify) -> this helper.  Verus has no
+// specification form for a closure that takes `&mut T`; TRUSTED: the call may write any value through the reference (no
+// postcondition), and does nothing else.
+#[verifier::external_body]
+pub fn opt_modify<T, F: FnOnce(&mut T)>(o: Option<&mut T>, f: F)
+{
+    o.map(f);
+}
